@@ -1,10 +1,10 @@
 SPECIFICATION Spec
-CONSTANT MaxL = 3
+CONSTANT MaxL = 2
 CONSTANT MaxC = 2
 CONSTANT FailKinds = {"none", "call", "load"}
 CONSTANT ForceMulti = {TRUE}
 CONSTANT SepExit = FALSE
 CONSTANT Mutant = "none"
-CONSTANT KeepHist = TRUE
+CONSTANT KeepHist = "labels"
 CONSTRAINT DumpFinal
 CHECK_DEADLOCK TRUE
